@@ -38,6 +38,14 @@ CHECKS.update({
    text="Held on every execution observed: valid and single-fault (required/bound/multipleOf/length/pattern/string-enum) documents get identical verdicts and identical decoded values through both paths; divergences are attributed to a recorded finding only when both paths follow their own defect-model prediction.", ref="§4 C17"),
 })
 
+CHECKS.update({
+ "C15": dict(cat="exploration", tech="differential runtime monitor: the same integer schema generated with and without --min-sized-ints, both compiled programs executed on the same boundary documents and judged against the reference model; go/ast census of the chosen field types",
+   text="Held on every execution observed: integer schemas with bounds on/next to the 8/16/32/64-bit limits (boolean and numeric exclusive forms, one- and two-sided) generated flag-off and flag-on; both programs run on values on and next to every bound and type limit and must give the model's verdict and the same decoded value; census: the chosen type contains every admitted integer and no narrower sized type does.", ref="§4 C15"),
+ "C19": dict(cat="exploration", tech="runtime monitor over an event log: recover() around every call, BEGIN/END records (a missing END = fatal), reflect.DeepEqual of the destination against an independent snapshot after a failed call; a share under the Go race detector",
+   text="Held on every execution observed (>100 000 calls per quick run): every generated type with an unmarshal method x valid documents, single-fault mutants, truncations, byte mutations, all top-level kinds, 10^4-deep nesting, huge numbers, invalid UTF-8, YAML-specific inputs x {json.Unmarshal, direct method call, yaml.Unmarshal} x {zero, previously decoded} destination: no panic/fatal, destination unchanged after an error.", ref="§4 C19",
+   note="Trusted base: the driver's recover()/snapshot logic, reflect.DeepEqual, the Go race detector. Only types that have a generated method are judged for 'unchanged on error'. The recorded panic (null into a struct with typed additionalProperties) is recognised by its exact message on a document containing null."),
+})
+
 NOT_YET = {}
 
 def main():
